@@ -542,7 +542,10 @@ def run(ctx):
     rule_handler_selection(ctx)
     rule_handler_documents(ctx)
     rule_from_schema(ctx)
-
+    # R15.10: no behaviour changes at a number fixed in the source (sizes, depths, counts, magnitudes are unbounded in the property's domain)
+    from . import scope as _scope
+    _scope.rule_no_size_thresholds(ctx, 'R15.10', ('validators', '_utils'), 'retrieval and caching')
+    _scope.rule_no_value_identity(ctx, 'R15.11', ('validators', '_utils'), 'the resolver and the dispatcher')
 
 def rule_handler_documents(ctx, rid="R15.8"):
     from .ressem import handler_docs_eval
